@@ -3,6 +3,7 @@
 from __future__ import annotations
 
 from asyncio import FIRST_COMPLETED, ensure_future, wait
+from collections.abc import AsyncGenerator
 from typing import TYPE_CHECKING, Any, Protocol, cast
 
 from ...error import GraphQLError, located_error
@@ -26,7 +27,7 @@ from .work_queue import (
 )
 
 if TYPE_CHECKING:
-    from collections.abc import AsyncGenerator, Sequence
+    from collections.abc import Sequence
 
     from ...pyutils import AbortSignal
     from ..types import IncrementalResult
@@ -76,6 +77,58 @@ class _SubsequentResultContext:
         self.has_next = True
 
 
+async def _finish(work_queue: WorkQueue, context: IncrementalPublisherContext) -> None:
+    """Cancel the remaining work and signal that all work has finished."""
+    await work_queue.cancel()
+    await context.cancel_incremental_work()
+    context.run_async_work_finished_hook()
+
+
+class _SubsequentResults(AsyncGenerator):
+    """The stream of subsequent results.
+
+    Delegates to the publishing generator, but also finishes the incremental work
+    when the stream is closed before it has been started: closing a generator
+    that never ran does not execute its ``finally`` clause, which would leave
+    early started work running and the stream sources open.
+    """
+
+    __slots__ = "_context", "_generator", "_started", "_work_queue"
+
+    def __init__(
+        self,
+        generator: AsyncGenerator[SubsequentIncrementalExecutionResult, None],
+        work_queue: WorkQueue,
+        context: IncrementalPublisherContext,
+    ) -> None:
+        self._generator = generator
+        self._work_queue = work_queue
+        self._context = context
+        self._started = False
+
+    def __aiter__(self) -> _SubsequentResults:
+        return self
+
+    def __anext__(self) -> Any:
+        self._started = True
+        return self._generator.__anext__()
+
+    def asend(self, value: Any) -> Any:
+        self._started = True
+        return self._generator.asend(value)
+
+    def athrow(self, *args: Any) -> Any:
+        self._started = True
+        return self._generator.athrow(*args)
+
+    async def aclose(self) -> None:
+        started = self._started
+        self._started = True
+        await self._generator.aclose()
+        if not started:
+            await _finish(self._work_queue, self._context)
+
+
 class IncrementalPublisher:
     """Publish incremental results.
 
@@ -117,7 +170,8 @@ class IncrementalPublisher:
         )
 
         return ExperimentalIncrementalExecutionResults(
-            initial_result, self._subscribe(work_queue, context)
+            initial_result,
+            _SubsequentResults(self._subscribe(work_queue, context), work_queue, context),
         )
 
     def _ensure_id(self, node: DeliveryGroup | ItemStream) -> str:
@@ -186,9 +240,7 @@ class IncrementalPublisher:
                 if not subsequent_result.has_next:
                     return
         finally:
-            await work_queue.cancel()
-            await context.cancel_incremental_work()
-            context.run_async_work_finished_hook()
+            await _finish(work_queue, context)
 
     def _handle_batch(
         self, batch: Sequence[WorkQueueEvent]
